@@ -136,6 +136,12 @@ func run(r *mon.Run) {
 				for j := range val {
 					val[j] = byte(0x20 + g.Intn(0x5f))
 				}
+				if g.Chance(1, 6) && vl > 0 {
+					// header values are byte strings: octets that are not UTF-8 (Latin-1 text), DEL and HTAB travel unchanged
+					for n := 1 + g.Intn(3); n > 0; n-- {
+						val[g.Intn(vl)] = mon.Pick(g, []byte{0xe9, 0xff, 0x80, 0xc3, 0x7f, '\t', 0xa0, 0xfe})
+					}
+				}
 				h[name] = []string{string(val)}
 				if g.Chance(1, 6) {
 					h[name] = append(h[name], "second value", "")
@@ -314,7 +320,7 @@ func run(r *mon.Run) {
 		}
 
 		// 7. an exchange assembled and signed entirely by the reference must be accepted
-		if (i/3)%3 == 0 || r.Thorough { // (i%3 selects the version)
+		if (i/9)%3 == 0 || r.Thorough { // (i%3 selects the version, (i/3)%3 the identity: blocks of nine cover every pair)
 			ref2 := *ref
 			if i%7 == 3 {
 				ref2.URL = "https://example.com/reference-made" // the odd URL shapes are for the byte comparisons only; here the policy (same origin, parsable URL) applies
@@ -328,7 +334,7 @@ func run(r *mon.Run) {
 			// every ninth reference-made exchange sits exactly on a limit of the format: a header block of 524288 bytes
 			// resp. a Signature header of 16384 bytes (b2 / b3; "larger than" is what the draft refuses)
 			atLimit := ""
-			if (i/3)%9 == 0 && ver != version.Version1b1 {
+			if (i/9)%9 == 0 && ver != version.Version1b1 {
 				atLimit = "header-block=524288"
 				pad := 524288 - len(rsxg.HeaderCBOR(&ref2))
 				for tries := 0; tries < 6 && pad > 0; tries++ {
@@ -351,7 +357,7 @@ func run(r *mon.Run) {
 				continue
 			}
 			sh := rsxg.SignatureHeader("ref", rsig, certSha[:], id.CertURL, vurl, rsxg.Integrity(string(ver)), date, exp)
-			if (i/3)%9 == 3 && ver != version.Version1b1 && len(sh) < 16384 && !strings.ContainsAny(vurl, "?#") {
+			if (i/9)%9 == 3 && ver != version.Version1b1 && len(sh) < 16384 && !strings.ContainsAny(vurl, "?#") {
 				// the validity URL is part of the signed message: lengthen it (same origin), sign again; ECDSA signatures vary
 				// in length by a byte or two, so retry until the header is exactly 16384 bytes
 				padLen := 16384 - len(sh) - len("?pad=")
